@@ -40,6 +40,7 @@ op_st = st.one_of(
 
 case_st = st.fixed_dictionaries({
     'mode': st.sampled_from(['txt', 'json', 'binl', 'bin']),
+    'pad': st.sampled_from(['x', 'x', 'ctl']),
     'file_size': st.one_of(st.integers(1, 200), st.sampled_from([1, 10, 64, 100])),
     'total_size': st.one_of(st.integers(1, 1500), st.sampled_from([50, 300, 10**9, 10**9])),
     'readers': st.lists(st.sampled_from(['shared', 'auto', 'manual']), min_size=1, max_size=3, unique=True),
@@ -110,7 +111,7 @@ def run_case(case):
                 w.drain_and_check_complete(r)
         except rm.Violation as v:
             return bad(str(v), v.sig, sorted(w.classes), {'written': len(w.written), 'rollovers': w.rollovers})
-        classes = sorted(w.classes | {f'mode {case["mode"]}'} | ({'pruned by retention'} if w.removed else set()))
+        classes = sorted(w.classes | {f'mode {case["mode"]}'} | ({'record bodies with control characters'} if case.get('pad', 'x') != 'x' else set()) | ({'pruned by retention'} if w.removed else set()))
         return ok(w.rollovers >= 1 and w.reads_after_rollover >= 1, classes,
                   {'written': len(w.written), 'rollovers': w.rollovers, 'files_removed': len(w.removed)})
     finally:
